@@ -83,6 +83,31 @@ fn assoc_unit(t: &mut Tape, ctx: &mut Ctx, al: gen::Alpha) -> CheckResult {
     let r = comp(ctx, &f, &idb, "f;id")?;
     require_iso(ctx, "left-unit", &m(ctx, &l, "id;f")?, &ds[0], "id;f vs f")?;
     require_iso(ctx, "right-unit", &m(ctx, &r, "f;id")?, &ds[0], "f;id vs f")?;
+    // the same laws through the lax representation: composites keep their gluing deferred, so the
+    // right-nested bracketing hands an operand with pending unifications to the next composition
+    {
+        use crate::lax_ops::*;
+        use open_hypergraphs::category::Arrow;
+        let (lf, lg, lh) = (to_lax_d(&ds[0]), to_lax_d(&ds[1]), to_lax_d(&ds[2]));
+        let dump = ctx.dump.clone();
+        let c = move |a: &LOH, b: &LOH, what: &str| {
+            Arrow::compose(a, b).ok_or_else(|| Violation { sub_check: "law-composable".into(), message: format!("lax {what}: composition undefined although the types match"), dump: dump.clone() })
+        };
+        let left = c(&c(&lf, &lg, "f;g")?, &lh, "(f;g);h")?;
+        let right = c(&lf, &c(&lg, &lh, "g;h")?, "f;(g;h)")?;
+        let lm = m(ctx, &left.to_strict(), "lax (f;g);h")?;
+        let rm = m(ctx, &right.to_strict(), "lax f;(g;h)")?;
+        require_iso(ctx, "lax-associativity", &lm, &rm, "lax (f;g);h vs f;(g;h)")?;
+        let strict_fgh = comp(ctx, &f, &gh, "f;(g;h)")?;
+        require_iso(ctx, "lax-associativity", &rm, &m(ctx, &strict_fgh, "f;(g;h)")?, "lax f;(g;h) vs the strict composite")?;
+        let idl = LOH::identity(crate::labels::obs(&ds[1].source_type()));
+        let u = c(&idl, &c(&lg, &lh, "g;h")?, "id;(g;h)")?;
+        require_iso(ctx, "lax-left-unit", &m(ctx, &u.to_strict(), "lax id;(g;h)")?, &m(ctx, &gh, "g;h")?, "lax id;(g;h) vs g;h")?;
+        // interchange with right-nested (pending) factors
+        let l = c(&lf, &lg, "f;g")?.tensor(&c(&lg, &lh, "g;h")?);
+        let r2 = c(&lf.tensor(&lg), &lg.tensor(&lh), "(f|g);(g|h)")?;
+        require_iso(ctx, "lax-interchange", &m(ctx, &l.to_strict(), "lax (f;g)|(g;h)")?, &m(ctx, &r2.to_strict(), "lax (f|g);(g|h)")?, "lax interchange")?;
+    }
     if ds.iter().all(interesting) {
         ctx.nontrivial(&ds);
         if ctx.want_sample {
